@@ -185,8 +185,21 @@ def rule_include_scope(ctx, px):
     S = "R-C17-SCOPE"
     f = px.func("nunavut.lang._common", "IncludeGenerator.generate_include_filepart_list")
     found = False
+    def mentions_support(e):
+        """the expression enumerates the serialization support files - directly or through a helper method of the class"""
+        if "SERIALIZATION_SUPPORT" in ast.unparse(e):
+            return True
+        for c in ast.walk(e):
+            if isinstance(c, ast.Call) and isinstance(c.func, ast.Attribute) and isinstance(c.func.value, ast.Name) and c.func.value.id in ("self", "cls") \
+                    and f.cls is not None and c.func.attr in f.cls.methods and "SERIALIZATION_SUPPORT" in ast.unparse(f.cls.methods[c.func.attr].node):
+                return True
+        return False
+
     for st, gd in pyfront.walk_guarded(f.node.body):
-        if isinstance(st, ast.AugAssign) and "SERIALIZATION_SUPPORT" in ast.unparse(st.value):
+        adds = (isinstance(st, ast.AugAssign) and mentions_support(st.value)) or \
+            (isinstance(st, ast.Expr) and isinstance(st.value, ast.Call) and isinstance(st.value.func, ast.Attribute) and st.value.func.attr in ("extend", "append")
+             and any(mentions_support(a) for a in st.value.args))
+        if adds:
             found = True
             terms = pyfront.guard_terms(gd)
             ok = terms == [("self._omit_serialization_support", False)]
